@@ -1,21 +1,33 @@
-import LhasaV.Model.Reader
+import LhasaV.Lemmas.ReaderLedger
+import LhasaV.Lemmas.StreamProps
 /-!
 # C15 — members are independent of how other members were skipped, read or checked
 -/
 namespace LhasaV.Props.C15
 open LhasaV LhasaV.Reader
 
-theorem closeDecoder_currType (s : St) : (closeDecoder s).currType = s.currType := by
-  unfold closeDecoder
-  split <;> rfl
+/-- After the end has been reported every further request reports the end, whatever calls
+(reads, checks, extracts) are made in between. -/
+theorem end_sticky {s s' : St} (h : Reader.next s = .ok (none, s')) (ops : List Op) :
+    ∃ s'', Reader.next (run s' ops) = .ok (none, s'') ∧ s''.currType = .eof :=
+  Reader.end_sticky h ops
 
-/-- once the end has been reported, every further `next` reports the end again -/
-theorem next_after_eof (s : St) (h : s.currType = .eof) :
-    ∃ s', Reader.next s = .ok (none, s') ∧ s'.currType = .eof := by
-  refine ⟨closeDecoder s, ?_, by rw [closeDecoder_currType, h]⟩
-  have hc : ((closeDecoder s).currType == CurrType.eof) = true := by
-    rw [closeDecoder_currType, h]; rfl
-  unfold Reader.next
-  simp only [hc, if_true]
+/-- the basic reader: once `eof` is set no header is returned any more -/
+theorem basic_end_sticky (mk : Nat → Nat) (b : Basic) (led : Ledger) (h : b.eof = true) :
+    ∃ b' led', basicNext mk b led = .ok (b', led') ∧ b'.curr = none ∧ b'.eof = true :=
+  Reader.basicNext_eof mk b led h
+
+/-- Every history keeps the ownership invariant: a header handed to the caller (`curr`) is live
+as long as it is current — no use after free, no double free — for legal and illegal histories. -/
+theorem no_dangling_header (st : Stream.St) (pol : DirPolicy) (mk : Nat → Nat) (ops : List Op) :
+    Inv (run (fresh st pol mk) ops) :=
+  Reader.run_inv (Reader.inv_fresh st pol mk) ops
+
+/-- The sequence of headers the basic reader returns does not depend on the stream kind nor on the
+step counters: observationally equal states stay observationally equal and return the same header. -/
+theorem headers_kind_independent (mk : Nat → Nat) (a b : Basic) (led : Ledger)
+    (h : Stream.ObsEq a b) (wf : Stream.WF a) :
+    Stream.ResRel (fun r r' => Stream.ObsEq r.1 r'.1 ∧ r.2 = r'.2) (basicNext mk a led) (basicNext mk b led) :=
+  Stream.basicNext_kind_indep mk a b led h wf
 
 end LhasaV.Props.C15
